@@ -334,6 +334,7 @@ pub fn eval(rig: &Rig, case: &Case, stats: &mut Stats) -> Outcome {
                         Ok(c) => c,
                         Err(e) => return Outcome::fail("rig:cannot-open-connection", e),
                     };
+                    pending.remove(&conn.port);
                     let n_req = if k == 0 { *first_requests } else { 2 };
                     for j in 0..n_req {
                         let _ = rig.mock.take_requests();
@@ -375,15 +376,22 @@ pub fn eval(rig: &Rig, case: &Case, stats: &mut Stats) -> Outcome {
                 let mut idle: Vec<Conn> = Vec::new();
                 for _ in 0..*n {
                     match rig.open(None, 0) {
-                        Ok(c) => idle.push(c),
+                        Ok(c) => {
+                            // the kernel may hand out the port of a closed slot whose record is still pending: this connection
+                            // consumes that record (model and map agree again)
+                            pending.remove(&c.port);
+                            idle.push(c);
+                        }
                         Err(_) => break,
                     }
                 }
                 let k = *ident % IDENTS;
                 let _ = verif_hooks::take_trace();
+                let flood_port = std::cell::Cell::new(0u16);
                 let r = (|| -> Result<(), (String, String)> {
                     let mut conn = rig.open(Some(rig.entry_of(&ident_rec(k))), 0).map_err(|e| ("rig:cannot-open-connection".to_string(), e))?;
                     let p = conn.port;
+                    flood_port.set(p);
                     request_on(rig, &mut conn, Some(k), k)?;
                     request_on(rig, &mut conn, Some(k), (k + 1) % IDENTS)?;
                     crate::rawhttp::close_abortive(conn.stream);
@@ -392,6 +400,9 @@ pub fn eval(rig: &Rig, case: &Case, stats: &mut Stats) -> Outcome {
                     }
                     Ok(())
                 })();
+                if flood_port.get() != 0 {
+                    pending.remove(&flood_port.get());
+                }
                 for c in idle {
                     crate::rawhttp::close_abortive(c.stream);
                 }
@@ -408,12 +419,12 @@ pub fn eval(rig: &Rig, case: &Case, stats: &mut Stats) -> Outcome {
                     nontrivial = true;
                     stats.class("batch:>=4-concurrent-accepts");
                 }
-                let results: Vec<Result<(), (String, String)>> = std::thread::scope(|sc| {
+                let results: Vec<Result<u16, (String, String)>> = std::thread::scope(|sc| {
                     let hs: Vec<_> = idents
                         .iter()
                         .map(|k| {
                             let k = *k % IDENTS;
-                            sc.spawn(move || -> Result<(), (String, String)> {
+                            sc.spawn(move || -> Result<u16, (String, String)> {
                                 let mut conn = rig.open(Some(rig.entry_of(&ident_rec(k))), 0).map_err(|e| ("rig:cannot-open-connection".to_string(), e))?;
                                 // concurrent requests share the mock's request log: check statuses only
                                 for only in [k, (k + 1) % IDENTS, k] {
@@ -431,7 +442,7 @@ pub fn eval(rig: &Rig, case: &Case, stats: &mut Stats) -> Outcome {
                                 if verif_hooks::contains(p) {
                                     return Err(("attribution:record-left-in-map-after-accept".to_string(), format!("port {}", p)));
                                 }
-                                Ok(())
+                                Ok(p)
                             })
                         })
                         .collect();
@@ -448,8 +459,12 @@ pub fn eval(rig: &Rig, case: &Case, stats: &mut Stats) -> Outcome {
                     }
                 }
                 for r in results {
-                    if let Err((sig, d)) = r {
-                        return Outcome::fail(sig, format!("step {} {:?}: {}", step, op, d));
+                    match r {
+                        Err((sig, d)) => return Outcome::fail(sig, format!("step {} {:?}: {}", step, op, d)),
+                        // (a batch connection that got the port of a closed slot replaced that port's pending record by its own)
+                        Ok(p) => {
+                            pending.remove(&p);
+                        }
                     }
                 }
                 let _ = verif_hooks::take_trace();
